@@ -34,11 +34,14 @@ struct Run{
   SimSolver* live; std::vector<SimSolver*> spares;
   std::vector<Mat> ref; std::vector<double> refs;        // reference state per (ix,irho) and (ix,is)
   std::vector<double> grid;
+  StepCfg plan_sc; bool have_plan_sc;
+  int any_override; bool hmin_raised; double cur_hmin;   // -1: derived from the switches
   double acc_tol; double t_ini,sum_dt; long steps_total; StepCfg sc; bool trace_ops; std::string prop;
   uint64_t shape; bool nontrivial; double sim_time; long applies_total;
   unsigned nx,nsun,nrhos,nsc;
 
-  Run():plan(0),live(0),acc_tol(0),t_ini(0),sum_dt(0),steps_total(0),trace_ops(false),shape(1469598103934665603ULL),nontrivial(false),sim_time(0),applies_total(0),nx(0),nsun(0),nrhos(0),nsc(0){}
+  Run():plan(0),live(0),have_plan_sc(false),any_override(-1),hmin_raised(false),cur_hmin(0),acc_tol(0),t_ini(0),sum_dt(0),steps_total(0),trace_ops(false),shape(1469598103934665603ULL),nontrivial(false),sim_time(0),applies_total(0),nx(0),nsun(0),nrhos(0),nsc(0){}
+  long opiseed() const{ return 1000+c.opi; }
   void shp(const std::string& s){ shape=fnv1a(s,shape); }
   void shp(long v){ shape=fnv1a(&v,sizeof v,shape); }
 
@@ -63,7 +66,19 @@ struct Run{
     int rc=CALL_OK;
     if(nx>=2){
       if(gk=="user"){
-        Rng r((uint64_t)cfg["seed"].as_int(1)+99); std::vector<double> xs(nx); double x=a; for(unsigned i=0;i<nx;i++){ xs[i]=x; x+=r.uniform(0.05,1.0)*(b-a)/nx; }
+        Rng r((uint64_t)cfg["seed"].as_int(1)+99); std::vector<double> xs(nx); double x=a;
+        int shape=(int)(cfg["grid_shape"].as_int(0)%4);
+        for(unsigned i=0;i<nx;i++){
+          double u=(nx>1)?(double)i/(double)(nx-1):0.0,pos;
+          switch(shape){
+            case 1: pos=1.0-std::pow(1.0-u,3.0); break;            // nodes cluster at the upper end
+            case 2: pos=std::pow(u,3.0); break;                    // nodes cluster at the lower end
+            case 3: pos=(u<0.5)?0.2*u:0.8+0.4*(u-0.5); break;      // two clusters and a wide gap
+            default: pos=-1;
+          }
+          if(pos<0){ xs[i]=x; x+=r.uniform(0.05,1.0)*(b-a)/nx; } else xs[i]=a+(b-a)*pos;
+        }
+        for(unsigned i=1;i<nx;i++) if(!(xs[i]>xs[i-1])) xs[i]=xs[i-1]+1e-3*(b-a);
         rc=lib_call([&]{ live->Set_xrange(xs); });
       }else{
         if(gk=="log"&&a<1e-6) a=0.5;
@@ -108,6 +123,7 @@ struct Run{
     sc.abs=o["abs"].as_num(1e-9); sc.rel=o["rel"].as_num(1e-9); if(!(sc.abs>0)) sc.abs=1e-9; if(!(sc.rel>=0)) sc.rel=1e-9;
     sc.h=o["h"].as_num(1e-3); if(!(sc.h>0)) sc.h=1e-3;
     sc.nsteps=(unsigned)std::max(1LL,std::min(20000LL,o["nsteps"].as_int(200)));
+    if(o.has("nsteps_override")) sc.nsteps=(unsigned)std::max(1LL,std::min(20000LL,o["nsteps_override"].as_int(5)));
     sc.tableau=(int)o["tableau"].as_int(3); sc.bufmode=(int)o["bufmode"].as_int(0); sc.dydt_in=o["dydt_in"].as_bool(true);
     sc.reject=(int)std::max(0LL,std::min(6LL,o["reject"].as_int(0))); sc.fail=(int)std::max(0LL,std::min(4LL,o["fail"].as_int(0)));
     if(!sc.adaptive){ sc.reject=0; sc.fail=0; }
@@ -144,8 +160,12 @@ struct Run{
     double dt=o["dt"].as_num(0.5); if(!(dt>=0)) dt=0; if(dt>20) dt=20;
     // a sanitizer report inside Evolve belongs to the property being checked when that is C04/C10 (the defect shows up as a memory error first)
     begin("evolve",(prop=="C04"||prop=="C10")?prop.c_str():(c.moved_in_run?"C10":"C15"));
+    if(have_plan_sc) sc=plan_sc; else { plan_sc=sc; have_plan_sc=true; }
+    StepCfg saved=sc;
+    if(hmin_raised){ sc.reject=0; sc.fail=0; if(sc.adaptive){ sc.abs=std::max(sc.abs,1e-4); sc.rel=std::max(sc.rel,1e-4); } if(sc.h<cur_hmin) sc.h=cur_hmin*10; }
     apply_stepper(live);
-    bool numerics=c.sw.any();
+    sc.reject=saved.reject&&!hmin_raised?saved.reject:0; 
+    bool numerics=(any_override<0)?c.sw.any():(any_override==1);
     std::vector<double> before;
     if(!numerics){ unsigned stride=nsun*nsun*nrhos+nsc; before.assign(live->rho_ptr(0,0),live->rho_ptr(0,0)+stride*nx); }
     double t_before=live->Get_t();
@@ -153,6 +173,7 @@ struct Run{
     c.reject_budget=sc.reject; c.fail_budget=sc.fail; g_last_apply_y=0;
     int rc=lib_call([&]{ live->Evolve(dt); });
     c.reject_budget=0; c.fail_budget=0;
+    { StepCfg used=sc; sc=saved; sc.abs=used.abs; sc.rel=used.rel; }      // tolerances actually used enter the closed-form tolerance; the plan's settings stay
     applies_total+=c.napply; sim_time+=dt;
     c.ctr->add("rhs_evaluations",c.rhs_evals); c.ctr->add("stepper_applies",c.napply);
     c.ctr->add("fault_step_rejection_fired",c.rejections_fired); c.ctr->add("fault_apply_failure_fired",c.failures_fired);
@@ -161,6 +182,18 @@ struct Run{
     shp("evolve:"+sc.name+(sc.adaptive?":a":":f")+(sc.is_sim()?":t"+std::to_string(sc.tableau)+"b"+std::to_string(sc.bufmode)+(sc.dydt_in?"d":""):"")); shp((long)(c.sw.coh|c.sw.noncoh<<1|c.sw.other<<2|c.sw.gs<<3|c.sw.os<<4)); shp((long)c.distinct_inputs);
     if(!c.out->ok) return;
     std::string evprop=(prop=="C10")?"C10":"C04";
+    if(rc!=CALL_OK && hmin_raised && g_what.find("not making progress")!=std::string::npos){
+      // with a raised lower step limit GSL may legitimately give up; the run is resynchronised by re-initialising the same configuration
+      c.ctr->add("probe_gsl_gave_up_at_raised_hmin");
+      Json cfg=Json::object(); cfg["nx"]=(int)nx; cfg["nsun"]=(int)nsun; cfg["nrhos"]=(int)nrhos; cfg["nscalars"]=(int)nsc; cfg["t0"]=t_ini; cfg["seed"]=(long long)(opiseed()); cfg["grid"]="lin"; cfg["xa"]=1.0; cfg["xb"]=2.0;
+      Json ro=Json::object(); ro["cfg"]=cfg; op_reini(ro); return;
+    }
+    if(rc!=CALL_OK && !sc.adaptive && sc.abs<1e-6 && g_what.find("(failure)")!=std::string::npos){
+      // fixed stepping whose step misses the controller's tight bounds: GSL reports failure and Evolve must throw (it did); resynchronise
+      c.ctr->add("probe_fixed_step_rejected_by_controller");
+      Json cfg=Json::object(); cfg["nx"]=(int)nx; cfg["nsun"]=(int)nsun; cfg["nrhos"]=(int)nrhos; cfg["nscalars"]=(int)nsc; cfg["t0"]=t_ini; cfg["seed"]=(long long)(opiseed()); cfg["grid"]="lin"; cfg["xa"]=1.0; cfg["xb"]=2.0;
+      Json ro=Json::object(); ro["cfg"]=cfg; op_reini(ro); return;
+    }
     if(rc!=CALL_OK){ c.violation(evprop,"evolve:threw",sc.name,"Evolve threw \""+g_what+"\""); return; }
     if(numerics && c.rhs_evals>=2 && c.distinct_inputs>=2) nontrivial=true;
     if(numerics && dt>0 && c.rhs_evals==0){ c.violation(evprop,"evolve:no-integration","switches","numerical terms are enabled but Evolve never evaluated the right-hand side"); return; }
@@ -234,7 +267,28 @@ struct Run{
     Json ro=Json::object(); ro["cfg"]=cfg; op_reini(ro);
   }
 
+  // step-size limits: integration must still succeed and be right; tight tolerances and injected rejections are incompatible with a raised
+  // lower limit (GSL legitimately gives up when the controller asks for less than hmin), so they are switched off while it is raised
+  void op_limits(const Json& o){
+    begin("limits","C15");
+    int a=(int)(o["hmin"].as_int(0)%4),b=(int)(o["hmax"].as_int(0)%3);
+    static const double mins[]={2.2250738585072014e-308,1e-9,1e-6,1e-4}; static const double maxs[]={1.7976931348623157e308,0.5,0.05};
+    hmin_raised=(a>=2);
+    lib_call([&]{ live->Set_h_max(maxs[b]); live->Set_h_min(mins[a]); });
+    cur_hmin=mins[a];
+    shp("limits"); shp((long)a*3+b);
+  }
+  // Set_AnyNumerics overrides the flag derived from the five switches until the next switch setter recomputes it
+  void op_any_numerics(const Json& o){
+    begin("any_numerics","C15");
+    bool on=o["on"].as_bool(false);
+    lib_call([&]{ live->Set_AnyNumerics(on); });
+    any_override=on?1:0;
+    shp("any_numerics"); shp((long)on);
+  }
+
   void op_switch(const Json& o){
+    any_override=-1;
     int w=(int)(o["which"].as_int(0)%5); bool on=o["on"].as_bool(true);
     begin("switch","C15");
     // exactly the setter the user would call, including redundant calls: the derived "any numerics" flag must come out right whatever the order
@@ -269,7 +323,8 @@ struct Run{
           // the destination has itself been configured like the source and evolved (so it carries cached stepper buffers of its own)
           nw->ini(nx,nsun,nrhos,nsc,t_ini); if(nx>=2) nw->Set_xrange(1.0,2.0,"linear");
           for(unsigned ix=0;ix<nx;ix++){ for(unsigned ir=0;ir<nrhos;ir++){ double* q=nw->rho_ptr(ix,ir); for(unsigned k=0;k<nsun*nsun;k++) q[k]=0.25; } for(unsigned is=0;is<nsc;is++) nw->scal_ptr(ix)[is]=0.5; }
-          apply_switches(nw,0); apply_stepper(nw);
+          apply_switches(nw,0);
+          { StepCfg ksc=sc; sc.name="rkf45"; sc.adaptive=true; sc.abs=sc.rel=1e-6; sc.h=1e-3; sc.reject=0; sc.fail=0; apply_stepper(nw); sc=ksc; }   // a benign stepper for the destination's own history
           SimSolver* keep=c.live; c.live=nw; nw->Evolve(0.05); c.live=keep;
         }
         else if(!fresh){ nw->ini(1+(unsigned)(o["n"].as_int(1)%3),2+(unsigned)(o["d"].as_int(0)%5),1,(unsigned)(o["s"].as_int(0)%2),-2.0); }
@@ -359,11 +414,28 @@ struct Run{
     if(!outside) rho=from_components(nsun,live->rho_ptr((unsigned)k,ir)).scaled(1-f)+from_components(nsun,live->rho_ptr((unsigned)k+1,ir)).scaled(f);
     double mp=0; double want=outside?0:dense_expect(rho,O,xi,ir,tau,&mp);
     squids::SU_vector inter;
+    // optionally preceded by an averaging query at the same x and time with a reachable scale and/or another matrix index, through the same
+    // scratch buffer: what it leaves behind must not influence the query that is judged
+    int pre=(int)o["pre_avg"].as_int(0); unsigned ir2=(pre&2)?(ir+1)%nrhos:ir; double pscale=(pre&4)?1e-3:0.5;
+    if(pre && !outside && (kind=="x_avg"||kind=="x"||kind=="x_buf_avg"||kind=="x_buf")){
+      if(kind=="x_buf_avg"||kind=="x_buf"){
+        std::vector<bool> avr0(nsun*(nsun-1)/2+1),avr(nsun*(nsun-1)/2+1); double scale=4*(mp+1)+10; double junk=0;
+        rc=lib_call([&]{ squids::SQuIDS::expectationValueDBuffer buf(nsun); junk=live->GetExpectationValueD(op,ir2,xi,buf,pscale,avr0);
+                         if(kind=="x_buf_avg") got=live->GetExpectationValueD(op,ir,xi,buf,scale,avr); else got=live->GetExpectationValueD(op,ir,xi,buf); });
+        (void)junk; c.ctr->add("expect_preceded_by_averaging");
+        goto judged;
+      }else{
+        std::vector<bool> avr0(nsun*(nsun-1)/2+1); double junk=0;
+        int r0=lib_call([&]{ junk=live->GetExpectationValueD(op,ir2,xi,pscale,avr0); }); (void)junk; (void)r0;
+        c.log.clear(); c.ctr->add("expect_preceded_by_averaging");
+      }
+    }
     if(kind=="x") rc=lib_call([&]{ got=live->GetExpectationValueD(op,ir,xi); });
     else if(kind=="x_buf"){ rc=lib_call([&]{ squids::SQuIDS::expectationValueDBuffer buf(nsun); got=live->GetExpectationValueD(op,ir,xi,buf); }); }
     else if(kind=="x_avg"){ std::vector<bool> avr(nsun*(nsun-1)/2+1); double scale=4*(mp+1)+10; rc=lib_call([&]{ got=live->GetExpectationValueD(op,ir,xi,scale,avr); }); }
     else if(kind=="x_buf_avg"){ std::vector<bool> avr(nsun*(nsun-1)/2+1); double scale=4*(mp+1)+10; rc=lib_call([&]{ squids::SQuIDS::expectationValueDBuffer buf(nsun); got=live->GetExpectationValueD(op,ir,xi,buf,scale,avr); }); }
     else { rc=lib_call([&]{ inter=live->GetIntermediateState(ir,xi); }); }
+    judged:
     std::vector<double> ic; if(rc==CALL_OK && kind=="state") lib_call([&]{ ic=inter.GetComponents(); inter=squids::SU_vector(); });
     cleanup();
     if(outside){
@@ -380,7 +452,9 @@ struct Run{
     double tol=1e-12*(1+mp)*nsun*nsun*(rho.maxabs()*O.maxabs()+1e-300);
     if(!(std::fabs(got-want)<=tol)){ char b[240]; snprintf(b,sizeof b,"%s(x=%.6g, matrix %u) = %.15g, reference %.15g (bracket %zu, weight %.6g, t-t_ini=%.6g, tolerance %.3g)",kind.c_str(),xi,ir,got,want,k,f,tau,tol); c.violation("C05","expect:mismatch",kind,b); return; }
     bool h0seen=false;
-    for(size_t i=0;i<c.log.size();i++) if(c.log[i].kind==6){ h0seen=true; if(c.log[i].t!=xi||c.log[i].idx!=ir){ c.violation("C05","expect:h0-argument",kind,"H0 was not evaluated at x itself"); return; } }
+    for(size_t i=0;i<c.log.size();i++) if(c.log[i].kind==6){
+      if(c.log[i].t==xi && c.log[i].idx==ir) h0seen=true;
+      if(c.log[i].t!=xi||(c.log[i].idx!=ir&&c.log[i].idx!=ir2)){ c.violation("C05","expect:h0-argument",kind,"H0 was not evaluated at x itself"); return; } }
     if(!h0seen){ c.violation("C05","expect:h0-argument",kind,"H0 was never evaluated"); return; }
     c.ctr->add("expect_x_checked");
   }
@@ -438,8 +512,10 @@ struct Run{
     std::string op=o["op"].as_str();
     if(op=="evolve") op_evolve(o);
     else if(op=="evolve_fail") op_evolve_fail(o);
+    else if(op=="limits") op_limits(o);
+    else if(op=="any_numerics") op_any_numerics(o);
     else if(op=="switch") op_switch(o);
-    else if(op=="stepper"){ read_stepper(o); shp("stepper:"+sc.name); }
+    else if(op=="stepper"){ read_stepper(o); plan_sc=sc; have_plan_sc=true; shp("stepper:"+sc.name); }
     else if(op=="move_ctor") op_move(o,false);
     else if(op=="move_assign") op_move(o,true);
     else if(op=="reini") op_reini(o);
@@ -459,7 +535,7 @@ struct SolverEngine: Engine{
     static const int nxw[]={1,1,2,2,2,3,3,4,5,9}; int nx=nxw[r.below(10)]; if(want_grid&&nx<2) nx=2+(int)r.below(3);
     c["nx"]=nx; c["nsun"]=(int)r.weighted({0,0,25,30,20,13,12}); c["nrhos"]=(int)r.weighted({0,55,30,15}); c["nscalars"]=(int)r.weighted({40,30,20,10});
     c["t0"]=r.chance(0.5)?0.0:r.uniform(-3,5); c["seed"]=(long long)r.below(1000000);
-    int gk=(int)r.weighted({50,25,25}); c["grid"]=gk==0?"lin":(gk==1?"log":"user"); c["xa"]=r.uniform(0.5,2.0); c["xb"]=r.uniform(2.5,6.0);
+    int gk=(int)r.weighted({50,25,25}); c["grid"]=gk==0?"lin":(gk==1?"log":"user"); c["grid_shape"]=(int)r.below(4); c["xa"]=r.uniform(0.5,2.0); c["xb"]=r.uniform(2.5,6.0);
     return c;
   }
   static Json gen_stepper(Rng& r,double dt,double lambda_hint){
@@ -472,6 +548,7 @@ struct SolverEngine: Engine{
     static const double eps[]={1e-6,1e-10,1e-10,1e-10,1e-12,1e-9,1e-6};   // rk2 adaptive at tight tolerances needs thousands of steps: its closed-form comparison is mostly skipped, the per-call oracle is not
     // fixed stepping through a driver that owns a controller fails (GSL_FAILURE) whenever a step misses the controller's bounds: keep them loose there
     o["abs"]=adaptive?eps[k]:0.1; o["rel"]=adaptive?eps[k]:0.1;
+    if(!adaptive && k!=6 && r.chance(0.15)){ o["abs"]=1e-13; o["rel"]=1e-13; o["nsteps_override"]=r.range(2,20); }   // a fixed step that misses the controller's bounds makes GSL fail: Evolve must then throw
     o["h"]=r.chance(0.3)?2.2e-16:(r.chance(0.5)?1e-3:1e-1);
     double L=lambda_hint; unsigned ns;
     if(k==0) ns=(unsigned)std::min(20000.0,std::ceil(dt*L/0.004)+10); else if(k==4) ns=(unsigned)(std::ceil(dt*L/0.15)+10); else if(k==6) ns=(unsigned)r.range(1,12); else ns=(unsigned)(std::ceil(dt*L/0.04)+10);
@@ -489,6 +566,7 @@ struct SolverEngine: Engine{
     if(allow_outside && r.chance(0.25)) x=r.chance(0.5)?-r.uniform(0.01,1.5):1+r.uniform(0.01,1.5);
     else if(r.chance(0.1)) x=r.chance(0.5)?0.0:1.0;
     o["x"]=x; o["at_node"]=r.chance(0.15);
+    o["pre_avg"]=r.chance(0.3)?(int)(1+r.below(7)):0;
     if(allow_outside && r.chance(0.12)){ static const int ulps[]={1,1,2,16,1000}; o["edge"]=ulps[r.below(5)]*(r.chance(0.5)?1:-1); }
     return o;
   }
@@ -527,6 +605,8 @@ struct SolverEngine: Engine{
         int k=(int)r.weighted({40,14,12,8,8,6,6,6});
         if(prop=="C15"&&r.chance(0.15)) k=8;
         if(prop=="C15"&&r.chance(0.12)) k=9;
+        if(r.chance(0.08)) k=10;
+        if(r.chance(0.06)) k=11;
         if(k==0){ double dt=dtgen(); if(i==0||r.chance(0.35)) ops.push(gen_stepper(r,dt,L)); evolve(dt); }
         else if(k==1){ Json o=Json::object(); o["op"]="switch"; o["which"]=(int)r.below(5); o["on"]=r.chance(0.5); ops.push(o); }
         else if(k==2){ ops.push(gen_stepper(r,1.0,L)); }
@@ -534,6 +614,8 @@ struct SolverEngine: Engine{
         else if(k==5){ Json o=Json::object(); o["op"]="reini"; o["cfg"]=gen_cfg(r,false); ops.push(o); }
         else if(k==6) ops.push(gen_expect(r,prop=="C15"));
         else if(k==7){ Json o=Json::object(); o["op"]="second_solver"; o["d"]=(int)r.below(5); o["avg"]=r.chance(0.3); o["vs"]=(long long)r.below(100000); ops.push(o); }
+        else if(k==10){ Json o=Json::object(); o["op"]="limits"; o["hmin"]=(int)r.below(4); o["hmax"]=(int)r.below(3); ops.push(o); if(r.chance(0.6)){ evolve(r.chance(0.5)?r.uniform(1e-5,5e-3):dtgen()); } }
+        else if(k==11){ Json o=Json::object(); o["op"]="any_numerics"; o["on"]=r.chance(0.4); ops.push(o); evolve(dtgen()); }
         else if(k==9){ Json o=Json::object(); o["op"]="evolve_fail"; o["at"]=(int)r.below(4); o["adaptive"]=r.chance(0.6); o["vs"]=(long long)r.below(100000); ops.push(o); }
         else{ Json o=Json::object(); o["op"]="bad_call"; static const char* bk[]={"xrange_size","xrange_unsorted","xrange_scale","xrange_log0","get_i"}; o["kind"]=bk[r.below(5)]; o["above"]=r.chance(0.5); ops.push(o); }
       }
